@@ -1,3 +1,4 @@
+import TinysetModel.Proofs.Loops
 import TinysetModel.Proofs.ProgramTotal
 import TinysetModel.Proofs.ProgramRefine
 import TinysetModel.Proofs.Fns
@@ -254,6 +255,19 @@ example : (∀ op ∈ [POp.ins 0 (2 ^ 63), .clone 1 0, .ext 1 [5, 6], .uniRef 2 
   intro op h
   simp only [List.mem_cons, List.not_mem_nil, or_false] at h
   rcases h with rfl | rfl | rfl | rfl | rfl <;> simp [POp.hintFree, POp.InRange]
+
+/-! ### the Robin-Hood primitives of the model are the ones in the current source
+(`Generated/Loops.lean`: `p_lookfor`, `p_insert`, `p_remove` of `src/setu64.rs` translated statement by statement —
+loops, early returns, element assignments, `mem::swap` — on every run by `tools/gen_loops.py`) -/
+
+/-- for every key, table and offset: the translated `p_lookfor` answers like `RH.lookfor` and leaves the slice alone;
+the translated `p_insert` returns the index and leaves the slice `RH.pinsert` does (its two panics are the model's two
+errors); the translated `p_remove` returns the answer and leaves the slice `RH.premove` does, and never panics -/
+theorem primitives_are_the_source_u64 (k : Nat) (a : Tbl) (off : Nat) :
+    Gen.p_lookfor_64 k a off = .ok (convLooked (lookfor k a off), a) ∧
+    Gen.p_insert_64 k a off = convErr (pinsert k a off) ∧
+    Gen.p_remove_64 k a off = .ok (premove k a off) :=
+  ⟨p_lookfor_64_eq k a off, p_insert_64_eq k a off, p_remove_64_eq k a off⟩
 
 end C01
 
